@@ -25,8 +25,14 @@ pub enum VmScenario {
         spec: SchedSpec,
         limits: Vec<u64>,
     },
-    /// C11: one state-read op on prepared operands
-    Read { case: VmCase, spec: SchedSpec },
+    /// C11: one state-read op on prepared operands; `then_as`: the same VM then executes the
+    /// program again on behalf of another solution (other contract)
+    Read {
+        case: VmCase,
+        spec: SchedSpec,
+        #[serde(default)]
+        then_as: Option<usize>,
+    },
     /// C05: totality and bounds; `calls` = number of consecutive exec calls on the same VM
     Total {
         case: VmCase,
@@ -334,6 +340,8 @@ fn limits_for(rng: &mut Rng, audit: &[u64], total: u128) -> Vec<u64> {
 
 pub fn gen_read(rng: &mut Rng) -> VmCase {
     let mut c = base_case(rng);
+    // a second solution, solving a predicate of another contract
+    c.solutions.push(vec![vec![5]]);
     let post = rng.chance(1, 2);
     let ext = rng.chance(1, 2);
     let mut other = [0u8; 32];
@@ -562,7 +570,7 @@ pub fn evaluate(sc: &VmScenario) -> VmEval {
     match sc {
         VmScenario::ForkJoin { case, spec, frames } => eval_forkjoin(&mut ev, case, spec, *frames),
         VmScenario::Gas { case, spec, limits } => eval_gas(&mut ev, case, spec, limits),
-        VmScenario::Read { case, spec } => eval_read(&mut ev, case, spec),
+        VmScenario::Read { case, spec, then_as } => eval_read(&mut ev, case, spec, *then_as),
         VmScenario::Total { case, spec, calls } => eval_total(&mut ev, case, spec, *calls),
     }
     ev
@@ -962,7 +970,7 @@ fn layout(mem: &[Word], addr: usize, values: &[Value]) -> Option<Vec<Word>> {
     Some(out)
 }
 
-fn eval_read(ev: &mut VmEval, case: &VmCase, spec: &SchedSpec) {
+fn eval_read(ev: &mut VmEval, case: &VmCase, spec: &SchedSpec, then_as: Option<usize>) {
     let ops = case.ops();
     let Some(op) = ops.first().copied() else {
         return;
@@ -1013,6 +1021,39 @@ fn eval_read(ev: &mut VmEval, case: &VmCase, spec: &SchedSpec) {
     }
     let below = &st[..ix.min(st.len())];
     let ca = Arc::new(case.clone());
+    if let (Some(ix2), true, false) = (then_as, valid, ext) {
+        // the same VM serves another solution afterwards: its own-contract read must go to that
+        // solution's contract
+        let (r, info) = run_vm(
+            &ca,
+            spec,
+            u64::MAX,
+            RunOpts {
+                then_as: Some(ix2),
+                ..Default::default()
+            },
+        );
+        ev.infos.push(info);
+        if let Ok(o) = r {
+            let want = case.contract_of(ix2);
+            let reqs: Vec<&Ev> = o.reads.iter().collect();
+            if let Some(Ev::Read { contract: rc, .. }) = reqs.last() {
+                if reqs.len() == 2 && *rc != want {
+                    ev.finding = Some(finding(
+                        "read-wrong-request",
+                        format!(
+                            "a VM reused for solution {ix2} asked contract {:02x?}.. instead of that solution's contract {:02x?}.. [{}]",
+                            &rc[..4], &want[..4], case.shape
+                        ),
+                    ));
+                    return;
+                }
+                if reqs.len() == 2 {
+                    ev.note("reused_vm_checked");
+                }
+            }
+        }
+    }
     let (r, info) = run_vm(&ca, spec, u64::MAX, RunOpts::default());
     ev.infos.push(info);
     let o = match r {
@@ -1266,7 +1307,8 @@ pub fn scenario_for(batch: &str, run_seed: u64) -> Option<VmScenario> {
             } else {
                 random_spec(&mut sr, true)
             };
-            VmScenario::Read { case, spec }
+            let then_as = if wl.chance(1, 4) { Some(1) } else { None };
+            VmScenario::Read { case, spec, then_as }
         }
         "c05-total" => {
             let (case, calls) = gen_total(&mut wl);
@@ -1291,7 +1333,7 @@ fn sample_of(sc: &VmScenario) -> Json {
     let (case, spec) = match sc {
         VmScenario::ForkJoin { case, spec, .. }
         | VmScenario::Gas { case, spec, .. }
-        | VmScenario::Read { case, spec }
+        | VmScenario::Read { case, spec, .. }
         | VmScenario::Total { case, spec, .. } => (case, spec),
     };
     json!({
